@@ -26,6 +26,21 @@ let all_assignments (space : nat list) : int array list =
   let n = List.fold_left ( * ) 1 sp in
   List.init n (fun i -> o_digits sp i)
 
+(* ---------- FactoredMatrix2D ---------- *)
+let read_bm c = let tag = next_nats c in let atag = next_nats c in let rows = next_int c in let cols = next_int c in
+  { bmTag = tag; bmActionTag = atag; bmVals = List.init rows (fun _ -> List.init cols (fun _ -> next_q c)) }
+let read_fm c = next_list c read_bm
+let o_radix (sp : int array) (tag : int list) (x : int array) =
+  let idx = ref 0 and mult = ref 1 in List.iter (fun k -> idx := !idx + !mult * x.(k); mult := !mult * sp.(k)) tag; !idx
+let o_bm_value spS spA (b : bm) s a : q =
+  match List.nth_opt b.bmVals (o_radix spS (il b.bmTag) s) with
+  | None -> failwith "o_bm_value: row out of range"
+  | Some row -> (match List.nth_opt row (o_radix spA (il b.bmActionTag) a) with Some v -> v | None -> failwith "o_bm_value: column out of range")
+let o_flat2 spS spA (fm : bm list) s a = List.fold_left (fun acc b -> q_add acc (o_bm_value spS spA b s a)) q_zero fm
+let bm_eq (a : bm) (b : bm) = nats_eq a.bmTag b.bmTag && nats_eq a.bmActionTag b.bmActionTag
+                              && List.length a.bmVals = List.length b.bmVals && List.for_all2 qs_eq a.bmVals b.bmVals
+let fm_eq a b = List.length a = List.length b && List.for_all2 bm_eq a b
+
 let judge _id (c : cursor) (r : cursor) : bool * string =
   let kind = next c in
   match kind with
@@ -437,6 +452,80 @@ let judge _id (c : cursor) (r : cursor) : bool * string =
     if not (nats_eq m.bmTag i_tag && nats_eq m.bmActionTag i_atag) then disagree "backProject" "backProject" "tags differ";
     if not (List.length m.bmVals = rows && List.for_all2 qs_eq m.bmVals i_vals) then disagree "backProject" "backProject" "values differ";
     (nS > 1, "ddn")
+  | "facout" ->
+    let space = next_nats c in let fill = next_nat c in
+    let ids = next_nats c in
+    let sp = il space in
+    let buf = ref (List.map (fun _ -> fill) space) in
+    List.iter (fun id ->
+        let i_buf = next_nats r in let i_back = next_int r in
+        (* O: whatever the buffer held, it now holds the digits of id (and converts back to id) *)
+        let d = Array.to_list (o_digits sp (int_of_nat id)) in
+        if il i_buf <> d then oracle_fail "toFactors_out_overwrites" "toFactors" ("reused buffer holds " ^ str_nats i_buf ^ " for id " ^ string_of_int (int_of_nat id));
+        if i_back <> int_of_nat id then oracle_fail "toIndex_toFactors" "toFactors" "round trip through the reused buffer failed";
+        buf := toFactorsOut space id !buf;
+        if not (nats_eq !buf i_buf) then disagree "toFactorsOut" "toFactors" "differ") ids;
+    (List.length ids > 1, "facout")
+  | "flatb" ->
+    let sA = next_nats c in
+    let groups = next_list c (fun c -> let tag = next_nats c in let means = next_qs c in (tag, means)) in
+    let pulls = next_nats c in
+    let i_A = next_int r in
+    let sp = il sA in let spA = Array.of_list sp in
+    if i_A <> List.fold_left ( * ) 1 sp then oracle_fail "flattened_model_eq_factored" "FlattenedModel::getA" "not the size of the joint action space";
+    let helper = ref (List.map (fun _ -> nat_of_int 0) sA) in
+    List.iter (fun a ->
+        let got = next_q r in
+        (* O: the flat arm a pays what the factored bandit pays for the joint action toFactors(A, a) *)
+        let joint = o_digits sp (int_of_nat a) in
+        let expect = List.fold_left (fun acc (tag, means) -> q_add acc (List.nth means (o_radix spA (il tag) joint))) q_zero groups in
+        if not (q_eq got expect) then oracle_fail "flattened_model_eq_factored" "FlattenedModel::sampleR" ("arm " ^ string_of_int (int_of_nat a) ^ " pays " ^ string_of_q got ^ " expected " ^ string_of_q expect);
+        helper := toFactorsOut sA a !helper;
+        let m = List.fold_left (fun acc (tag, means) -> q_add acc (List.nth means (int_of_nat (toIndexPartial tag sA !helper)))) q_zero groups in
+        if not (q_eq got m) then disagree "flattened_sampleR" "FlattenedModel::sampleR" "differ") pulls;
+    (List.length pulls > 1, "flatb")
+  | "fm" ->
+    let op = next c in let sS = next_nats c in let sA = next_nats c in let fm = read_fm c in
+    let spS = Array.of_list (il sS) and spA = Array.of_list (il sA) in
+    let pairs = List.concat_map (fun s -> List.map (fun a -> (s, a)) (all_assignments sA)) (all_assignments sS) in
+    let nb = List.length fm in
+    let weighted w s a =
+      let const = if List.length w = nb + 1 then List.nth w nb else q_zero in
+      List.fold_left (fun acc (b, wi) -> q_add acc (q_mul wi (o_bm_value spS spA b s a))) const (List.combine fm (List.filteri (fun i _ -> i < nb) w)) in
+    let nl x = List.map nat_of_int (Array.to_list x) in
+    if op = "getw" then begin
+      let w = next_qs c in
+      let i_flat = next_qs r in
+      List.iter2 (fun (s, a) got ->
+          if not (q_eq got (weighted w s a)) then oracle_fail "weighted_flat_2d" "FactoredMatrix2D::getValue" "weighted value differs from the flat weighted sum";
+          if not (q_eq got (getValueW2D sS sA fm (nl s) (nl a) w)) then disagree "getValueW2D" "FactoredMatrix2D::getValue" "differ") pairs i_flat;
+      (nb > 1, "fm_getw")
+    end else begin
+      let (expect, clause, site, model) =
+        (match op with
+         | "plus" | "plusrv" ->
+           let b = read_bm c in
+           ((fun s a -> q_add (o_flat2 spS spA fm s a) (o_bm_value spS spA b s a)), "plus_flat_2d", "plusEqual2D", plusEqual2D sS sA fm b)
+         | "plusfm" | "plusfmrv" ->
+           let rr = read_fm c in
+           ((fun s a -> q_add (o_flat2 spS spA fm s a) (o_flat2 spS spA rr s a)), "plus_flat_2d", "plusEqual2D", plusEqualFM sS sA fm rr)
+         | "scale" ->
+           let v = next_q c in
+           ((fun s a -> q_mul v (o_flat2 spS spA fm s a)), "weighted_flat_2d", "FactoredMatrix2D::operator*=", scale2D fm v)
+         | "scalew" | "scalewc" ->
+           let w = next_qs c in
+           (weighted w, "weighted_flat_2d", "FactoredMatrix2D::operator*=", scaleW2D fm w)
+         | _ -> failwith ("unknown fm op " ^ op)) in
+      let i_fm = read_fm r in
+      let i_flat = next_qs r in
+      List.iter2 (fun (s, a) got ->
+          if not (q_eq got (expect s a)) then
+            oracle_fail clause site ("at (" ^ str_ints (Array.to_list s) ^ " | " ^ str_ints (Array.to_list a) ^ ") value " ^ string_of_q got ^ " expected " ^ string_of_q (expect s a))) pairs i_flat;
+      List.iter2 (fun (s, a) got -> if not (q_eq got (o_flat2 spS spA i_fm s a)) then oracle_fail "getValue2D_flat" "FactoredMatrix2D::getValue" "getValue differs from the sum of its bases") pairs i_flat;
+      if not (fm_eq model i_fm) then disagree ("fm_" ^ op) site "model and implementation bases differ";
+      List.iter2 (fun (s, a) got -> if not (q_eq got (getValue2D sS sA i_fm (nl s) (nl a))) then disagree "getValue2D" "FactoredMatrix2D::getValue" "differ") pairs i_flat;
+      (nb > 0 && List.length pairs > 1, "fm_" ^ op)
+    end
   | k -> failwith ("unknown case kind " ^ k)
 
 let () = main_loop judge
